@@ -572,9 +572,11 @@ func (g *Gen) simple(s M, depth int, allowArray bool) {
 			s["format"] = pick(r, []string{"float", "double", "float32"})
 		}
 	case "array":
-		items := M{}
-		g.simple(items, depth-1, true)
-		s["items"] = items
+		if !r.Chance(60) { // now and then an array without an element type: whatever "items" a recycled validator still carries must not apply
+			items := M{}
+			g.simple(items, depth-1, true)
+			s["items"] = items
+		}
 		if r.Chance(350) {
 			s["minItems"] = pick(r, lens)
 		}
@@ -604,7 +606,7 @@ func (g *Gen) simple(s M, depth int, allowArray bool) {
 
 func (g *Gen) Param() M {
 	r := g.r
-	p := M{"name": pick(r, []string{"p", "q", "id", "limit"}), "in": pick(r, []string{"query", "path", "header", "formData"})}
+	p := M{"name": pick(r, []string{"p", "q", "id", "limit", "p", "q", "id", "limit", ""}), "in": pick(r, []string{"query", "path", "header", "formData"})}
 	g.simple(p, 3, true)
 	if r.Chance(400) {
 		p["required"] = true
@@ -640,7 +642,11 @@ func (g *Gen) TypedFor(s M, valid bool) *TypedVal {
 	case "boolean":
 		return &TypedVal{T: "bool", J: js(r.Chance(500))}
 	case "integer":
-		ty := pick(r, []string{"int", "int8", "int16", "int32", "int64", "uint", "uint8", "uint16", "uint32", "uint64", "float64"})
+		ty := pick(r, []string{"int", "int8", "int16", "int32", "int64", "uint", "uint8", "uint16", "uint32", "uint64", "float64", "float64", "float32"})
+		if strings.HasPrefix(ty, "float") && r.Chance(700) {
+			// JSON-decoded numbers arrive as floats: whole ones are integers, fractional ones are not
+			return &TypedVal{T: ty, J: js(pick(r, []float64{0, 1, 2, 3, 4, 4.5, 2.5, 10, 10.5, 100, -1, -1.5}))}
+		}
 		v := pick(r, []int{0, 1, 2, 3, 4, 5, 6, 10, 11, 100})
 		if !strings.HasPrefix(ty, "u") && r.Chance(200) {
 			v = -v
@@ -656,6 +662,9 @@ func (g *Gen) TypedFor(s M, valid bool) *TypedVal {
 		items, _ := s["items"].(M)
 		depth := 1
 		base := "string"
+		if items == nil {
+			base = pick(r, []string{"string", "int64", "float64"})
+		}
 		cur := items
 		for cur != nil {
 			it, _ := cur["type"].(string)
